@@ -205,7 +205,9 @@ func (s *SourceControl) runLaterIfActive(f func()) error {
 	if !s.isSourceActive {
 		return fmt.Errorf("no source is active")
 	}
+	verifPoint("rpc:before-send")
 	s.queuedRequests <- f
+	verifPoint("rpc:between")
 	return <-s.queuedResults
 }
 
